@@ -261,6 +261,15 @@ def is_valid_rules(R, pfx):
         # the closure's value is the verify verdict
         cl_ok = any(b["term"]["k"] == "call" and callee_matches(b["term"], [VER]) and (returned_directly(vb, b["term"]["d"]) or 0 in Taint(vb).closure({b["term"]["d"][0]})) for b in vb.blocks)
         okn = okn and cl_ok
+    # … and `true` comes from nowhere else: every `true` of is_valid is the verdict of that verify call
+    if vb is iv:
+        R.gate(pfx + ".is_valid.only", iv, RetSink("true", computed=True), [[CallGuard([VER], ("true",), "owner().verify(signature, ..) is true")]],
+               descr="is_valid is true only where the signature verified")
+    else:
+        lit = RetSink("true").blocks(iv)
+        if lit:
+            R.viol(pfx + ".is_valid.only", "unconditional-true", "Scratchpad::is_valid has a `true` that is not the verdict of the signature check", iv, iv.lines[0])
+        R.inst(pfx + ".is_valid.only", "K4 gate", "is_valid is true only where the signature verified", 1, not lit)
     if not okn:
         R.viol(pfx + ".is_valid.unsigned", "unsigned-valid", "Scratchpad::is_valid can return true for a scratchpad without a signature (%s)" % why, iv, iv.lines[0])
     R.inst(pfx + ".is_valid.unsigned", "K4r reject-edge", "no signature ⇒ is_valid() is false", 1, okn, {"form": why})
